@@ -83,14 +83,16 @@ class Leaves:
     """Array factory: every array handed to funsor is registered here so that
     the mutation monitor (C20) can re-hash it."""
 
-    def __init__(self, readonly=False):
+    def __init__(self, readonly=False, share=True):
         self.readonly = readonly
         self.arrays = []
-        self.shared = {}
+        self.shared = {} if share else None
 
     def make(self, node):
         # equal leaf nodes denote one array, hence (by hash-consing) one Tensor object: generated terms are DAGs with
         # shared leaves and shared sub-terms, as in user code that reuses a tensor
+        if self.shared is None:  # every occurrence of a leaf is its own array (C11: the root is multilinear per leaf)
+            return self._fresh(node)
         try:
             hit = self.shared.get(node)
         except TypeError:  # a node holding lists (not yet converted from JSON): no sharing
